@@ -14,7 +14,6 @@ from ..avm.engine import Engine, HarnessError
 from ..avm.sym import Bounds, SymAVM
 from ..common import Report, from_json, run_jobs, seed, tier, to_json, write_evidence
 from ..recipe import gen_rw, rcfg
-from ..recipe.ref import var_owners
 from ..teal.parse import parse
 from .. import tv, tvjob
 
@@ -49,16 +48,47 @@ def compile_with_sites(rec, version, optimize):
         reset_pyteal_state()
 
 
-def analyse(rec, conservative=False):
-    """-> list of (routine, var, site, status, path) for every tagged load of a routine-local variable"""
-    owners = var_owners(rec)
+def slot_owners(rec):
+    """variable -> the routine whose code mentions its slot (None = main), '*' when several do.  This is
+    the compiler's own notion of routine-local: taking a variable's index (by-reference argument,
+    DynamicScratchVar.set_index) mentions the slot in the routine that does it and nowhere else."""
+    owners = {}
+
+    def visit(e, who):
+        if not isinstance(e, (tuple, list)):
+            return
+        if e and e[0] in ("Load", "Store", "Ref", "SlotIndex", "DynSet", "DynLoad", "DynStore"):
+            for v in ([e[1], e[2]] if e[0] == "DynSet" else [e[1]]):
+                if v in owners and owners[v] != who:
+                    owners[v] = "*"
+                elif v not in owners:
+                    owners[v] = who
+        for c in e[1:] if isinstance(e, tuple) else e:
+            visit(c, who)
+
+    visit(rec["main"], None)
+    for name, sd in rec.get("subs", {}).items():
+        visit(sd["body"], name)
+    for v, d in rec.get("vars", {}).items():
+        if d.get("shared"):
+            owners[v] = "*"
+    return owners
+
+
+def analyse(rec, conservative=False, alias_stores=True):
+    """-> list of (routine, var, site, status, path) for every tagged load of a routine-local variable.
+    alias_stores=True: by-reference calls and stores through a dynamic variable count as stores of the
+    variables they may reach (see rcfg.build_routine) - used for the "must reject" obligations.
+    alias_stores=False: they are ignored, as the compiler's validator ignores them - used only to decide
+    whether the load an error names may legitimately be named."""
+    owners = slot_owners(rec)
     res = []
     routines = [(None, rec["main"])] + [(n, sd["body"]) for n, sd in rec.get("subs", {}).items()]
     nq = 0
     for rname, body in routines:
-        g, entry = rcfg.build_routine(body, conservative=conservative)
+        g, entry = rcfg.build_routine(body, conservative=conservative, alias_stores=alias_stores)
         for nd in g.nodes:
-            if nd.kind != "load" or owners.get(nd.var) != rname or nd.var in g.opaque_vars:
+            if nd.kind != "load" or owners.get(nd.var) != rname:
                 continue
             if rec["vars"].get(nd.var, {}).get("dyn"):
                 continue
@@ -96,7 +126,8 @@ def rw_job(job):
         elif named is None:
             out["violations"].append(dict(base, kind="error-does-not-identify-a-load", detail=detail))
         elif not any(l["var"] == named[0] and l["site"] == named[1] for l in must_reject) and \
-                not any(l["var"] == named[0] and l["site"] == named[1] and l["status"] == "sat" for l in analyse(rec, conservative=True)[0]):
+                not any(l["var"] == named[0] and l["site"] == named[1] and l["status"] == "sat"
+                        for l in analyse(rec, conservative=True, alias_stores=False)[0]):
             # (the compiler treats Return/Break/Continue as falling through, so it may name a load in dead
             # code; that is conservative, not wrong - only a load that is written on every path even under
             # that reading must not be named)
@@ -145,6 +176,12 @@ def build_jobs(t, sd):
             jobs.append(j)
             if v >= 8 and thorough:
                 jobs.append(dict(j, id=j["id"] + "/nofp", optimize={"frame_pointers": False}))
+    for v in ([6, 8, 10] if not thorough else [4, 5, 6, 7, 8, 9, 10]):
+        for (name, rec, opts) in gen_rw.alias_family("A", v, level):
+            j = {"id": "%s@v%d" % (name, v), "family": "rw-alias", "rec": to_json(rec), "version": v, "mode": "A", "optimize": None, "lens": (0, 1)}
+            jobs.append(j)
+            if v >= 8:
+                jobs.append(dict(j, id=j["id"] + "/nofp", optimize={"frame_pointers": False}))
     for j in jobs[:: max(1, len(jobs) // 4)]:
         j["sample"] = True
     return jobs
@@ -190,7 +227,8 @@ def main():
         rep.harness_error("cannot explore: verdicts %s" % dict(st))
     write_evidence(PROP, "model_checking", cov, ASSUMPTIONS + [
         "conditions are two-way branches whatever their value (the property is about syntactic paths)",
-        "variables passed by reference, dynamically indexed or explicitly numbered are excluded from the obligations",
+        "a call that receives a variable by reference, and a store through a dynamic variable that is pointed at it anywhere in the routine, count as stores of it (over-approximation: only paths that avoid those too must be rejected)",
+        "dynamic variables themselves and variables used by several routines are excluded from the obligations",
         "a rejection without an unwritten path is allowed (the compiler may be conservative) and only counted"], rep.wall(), len(rep.violations))
     return rep.finish(inconclusive=agg["inconclusive"], obligations=max(1, agg["queries"]))
 
